@@ -296,6 +296,35 @@ def run(ctx: Ctx) -> int:
         ok = r is not None and bool(r & {DEFAULTS, ENV}) and max(r) <= ENV
         ctx.oblige("C04.b", ok, c, f"argparse starts from the defaults/environment namespace {fmt(r)}; actions then overwrite left to right" if ok else f"namespace passed to argparse has provenance {fmt(r)}, expected the merged defaults/environment", fn=pa)
 
+    # an explicit env argument overrides the parser default: _default_env is consulted only under `env is None`
+    n_env = 0
+    for ref in ("_core:ArgumentParser._parse_defaults_and_environ", "_core:ArgumentParser._parse_common"):
+        fn = ctx.func(ref)
+        for node in walk_local(fn):
+            if isinstance(node, ast.Attribute) and node.attr == "_default_env" and isinstance(node.ctx, ast.Load):
+                n_env += 1
+                from .srcmodel import ancestors as _anc
+
+                ok = False
+                for a in _anc(node):
+                    if isinstance(a, ast.BoolOp) and isinstance(a.op, ast.And) and any(isinstance(v, ast.Compare) and ast.unparse(v) == "env is None" for v in a.values) and any(contains(v, node) or v is node for v in a.values):
+                        ok = True
+                        break
+                    if isinstance(a, (ast.stmt,)):
+                        break
+                ctx.oblige("C04.b", ok, node, "the parser's default_env is consulted only when env is None (an explicit env=False switches the environment off)" if ok else "default_env is consulted without `env is None`: an explicit env=False no longer keeps the environment out of the fold", fn=fn)
+    ctx.floor("C04.b-default-env-uses", n_env, 2)
+    # a config given on the command line / in the environment is merged as a whole: it is parsed with
+    # every subcommand section kept, without applying links, and with the previous config published
+    ac = ctx.func("_actions:ActionConfigFile.apply_config")
+    need_mgrs = {"not_single_subcommand", "previous_config_context", "skip_apply_links"}
+    for c in [c for c in calls_in(ac) if call_leaf(c) in ("parse_string", "parse_path")]:
+        from .util import enclosing_withs as _ew
+
+        have = {call_leaf(it.context_expr) for w, it in _ew(c) if isinstance(it.context_expr, ast.Call)}
+        missing = sorted(need_mgrs - have)
+        ctx.oblige("C04.b", not missing, c, "the config is parsed as a partial source: all subcommand sections kept, links deferred, previous config visible" if not missing else f"the config source is parsed outside {missing}: sections of the config are dropped or computed before the remaining sources are applied", fn=ac)
+
     # get_defaults: default config files applied in listed order
     gd = ctx.func("_core:ArgumentParser.get_defaults")
     loop = None
